@@ -214,18 +214,9 @@ func (s *wstate) one(h []Op) string {
 				s.emitted[key] = true
 				s.w.Emit(rec{Kind: "fail", Key: key, Clause: cf[0].Label, Size: 0, Case: caseJSON{Ops: h, Text: histString(h) + " then, in the same process, " + histString(canary), Names: s.nm, Fails: capFails(cf)}, Detail: "definitions made in an earlier history are visible to brand-new VMs of the same process:\n" + detail(cf)})
 			}
-			// other relations violated by this history are still reduced and reported on their own;
-			// the contaminated ones (leak-like relations of any kind) are ignored from here on.
-			ignore = map[string]bool{}
-			for _, rel := range []string{"leak-to-base", "leak-to-temp", "leak-from-discarded", "foreign-definition"} {
-				for _, kd := range []string{"class", "interface", "function", "class|interface"} {
-					ignore[rel+":"+kd] = true
-				}
-			}
-			s.memo = map[string][]string{histString(h): labelsOf(r.Fails)}
-			if !s.fails(h, ignore) {
-				return stateKey(modelOf(h).canon(), r.Obs)
-			}
+			// Everything else this process observes is contaminated by earlier histories (results
+			// depend on what ran before), so no further key is derived from this history.
+			return stateKey(modelOf(h).canon(), r.Obs)
 		}
 		red := s.reduce(h, ignore)
 		rr := execute(red, s.nm, s.dir, false)
